@@ -65,31 +65,25 @@ func (f *globalMaxInflight) add(n int32) int32 {
 }
 
 func (f *globalMaxInflight) SetState(instance string, requestId int64, current int32) (bool, int32, error) {
-	f.lock.RLock()
+	// reports and removals are serialized: a report racing with the removal of
+	// its instance (or two racing removals) must not leave the running total
+	// different from the sum of the recorded per-instance counts
+	f.lock.Lock()
+	defer f.lock.Unlock()
+
 	state, ok := f.instanceStates[instance]
-	f.lock.RUnlock()
 
 	if current < 0 {
 		if ok {
-			f.lock.Lock()
 			delete(f.instanceStates, instance)
 			f.add(-state.count)
-			f.lock.Unlock()
 			current = 0
 		}
 		return false, -1, nil
 	} else if !ok || state == nil {
-		f.lock.Lock()
-		state, ok = f.instanceStates[instance]
-		if !ok || state == nil {
-			state = &instanceState{}
-			f.instanceStates[instance] = state
-		}
-		f.lock.Unlock()
+		state = &instanceState{}
+		f.instanceStates[instance] = state
 	}
-
-	f.lock.RLock()
-	defer f.lock.RUnlock()
 
 	if requestId > 0 {
 		oldId := atomic.LoadInt64(&state.requestId)
